@@ -197,6 +197,17 @@ CATALOG: List[Cfg] = [
     _c("binpack-7-ems8", "bin_pack",
        "BinPack(G.bin_pack.RandomGenerator(7, 14, split_num_same_items=2), obs_num_ems=8)", kind="awkward",
        keys_quick=1, keys_thorough=4, horizon="7", max_states_quick=3000, max_states_thorough=40_000),
+    # a container whose footprint in mm^2 exceeds 2**31 and a small EMS buffer (max_num_ems=6 fills up), a cube-ish
+    # small container: sizes at the extremes of what the generator accepts
+    _c("binpack-yard-5", "bin_pack", "BinPack(G.bin_pack.RandomGenerator(5, 10, split_num_same_items=2, "
+       "container_dims=(60000, 40000, 5000)), obs_num_ems=4)", kind="awkward", keys_quick=1, keys_thorough=3,
+       horizon="5", max_states_quick=1500),
+    _c("binpack-6-buf6", "bin_pack", "BinPack(G.bin_pack.RandomGenerator(6, 6, split_num_same_items=2, "
+       "container_dims=(12, 10, 8)), obs_num_ems=6, normalize_dimensions=False)", kind="awkward", keys_quick=2,
+       keys_thorough=6, horizon="6", max_states_quick=3000),
+    _c("binpack-6-buf3", "bin_pack", "BinPack(G.bin_pack.RandomGenerator(6, 3, split_num_same_items=2, "
+       "container_dims=(12, 10, 8)), obs_num_ems=3, normalize_dimensions=False)", kind="awkward", keys_quick=2,
+       keys_thorough=6, horizon="6", max_states_quick=3000),
     _c("binpack-5-ems2-sparse", "bin_pack", "BinPack(G.bin_pack.RandomGenerator(5, 10, split_num_same_items=2), "
        "obs_num_ems=2, normalize_dimensions=False, reward_fn=R.bin_pack.SparseReward())", kind="awkward",
        keys_quick=1, keys_thorough=2, horizon="5", max_states_quick=400),
